@@ -12,7 +12,7 @@ def ensure_machk():
     """(re)build the extracted checker if missing or older than its sources"""
     srcs = [os.path.join(COQ, "Extract", "Extract.v"), os.path.join(VERIF, "ocaml", "machk.ml"), os.path.join(VERIF, "ocaml", "crun.ml"),
             os.path.join(COQ, "Expr", "CArith.v"), os.path.join(COQ, "CSkel", "Store.v"), os.path.join(COQ, "CSkel", "Run.v"), os.path.join(COQ, "CSkel", "Safety.v")] + \
-           [os.path.join(COQ, "Machine", f) for f in ("Dfa.v", "Sem.v", "NoSpin.v", "Bisim.v", "Search.v", "Chunk.v", "FailPos.v", "Eof.v", "BBisim.v", "BSearch.v") if os.path.exists(os.path.join(COQ, "Machine", f))]
+           [os.path.join(COQ, "Machine", f) for f in ("Dfa.v", "Sem.v", "NoSpin.v", "Bisim.v", "Search.v", "Chunk.v", "FailPos.v", "FailSticky.v", "CallEquiv.v", "Eof.v", "BBisim.v", "BSearch.v") if os.path.exists(os.path.join(COQ, "Machine", f))]
     CRUNP = os.path.join(VERIF, "ocaml", "crun")
     fresh = lambda: os.path.exists(MACHK) and os.path.exists(CRUNP) and all(min(os.path.getmtime(MACHK), os.path.getmtime(CRUNP)) >= os.path.getmtime(s) for s in srcs)
     if fresh():
@@ -20,7 +20,7 @@ def ensure_machk():
     with common.Lock("ocaml"):
         if fresh():
             return None
-        rc, out = common.coq_make(["Machine/Search.vo", "Machine/Chunk.vo", "Machine/FailPos.vo", "Machine/Eof.vo", "CSkel/Run.vo", "CSkel/Safety.vo"] + (["Machine/BBisim.vo", "Machine/BSearch.vo"] if os.path.exists(os.path.join(COQ, "Machine", "BSearch.v")) else []))
+        rc, out = common.coq_make(["Machine/Search.vo", "Machine/Chunk.vo", "Machine/FailPos.vo", "Machine/FailSticky.vo", "Machine/Eof.vo", "CSkel/Run.vo", "CSkel/Safety.vo"] + (["Machine/BBisim.vo", "Machine/BSearch.vo"] if os.path.exists(os.path.join(COQ, "Machine", "BSearch.v")) else []))
         if rc != 0:
             return "coq build failed: " + out[-1500:]
         gen = os.path.join(VERIF, "ocaml", "gen")
